@@ -80,6 +80,14 @@ def enumerate_cases(tier):
 
 
 def fixed_cases():
+    yield from _sorted_key_cases()
+    for zs in (['0.0', '-0.0'], ['-0.0', '0.0'], ['0.0', '-0.0', '0.0']):
+        yield {'v': ['list', [['float', z] for z in zs]], 'cfg': {'width': 79, 'ribbon_width': 71, 'indent': 4, 'sort_dict_keys': False}}
+        yield {'v': ['dict', [[['float', z], ['float', z]] for z in zs[:1]] + [[['int', 5], ['float', zs[1]]]]], 'cfg': {'width': 79, 'ribbon_width': 71, 'indent': 4, 'sort_dict_keys': False}}
+    for text in ('say "hi" and "bye" then it\'s done, isn\'t it', 'a "b" c\\\'d "e" f\\\'g h "i"', 'C:\\dir\\\'x\' "y" "z" and more words follow here'):
+        for w in (8, 12, 20, 30):
+            yield {'v': ['list', [['str', text]]], 'cfg': {'width': w, 'ribbon_width': w, 'indent': 2, 'sort_dict_keys': False}}
+            yield {'v': ['bytes', text.encode().hex()], 'cfg': {'width': w, 'ribbon_width': w, 'indent': 2, 'sort_dict_keys': False}}
     # D1 witnesses and friends
     deep = ['str', '']
     for _ in range(20):
@@ -90,6 +98,20 @@ def fixed_cases():
            'cfg': {'width': 79, 'ribbon_width': 71, 'indent': 4, 'sort_dict_keys': True}}
     yield {'v': ['dict', [[['int', 3], ['int', 1]], [['float', '-0.5'], ['int', 2]], [['bool', True], ['int', 3]]]],
            'cfg': {'width': 5, 'ribbon_width': 71, 'indent': 4, 'sort_dict_keys': True}}
+
+
+def _sorted_key_cases():
+    tk = lambda a, b: ['tuple', [a, b]]
+    I = lambda n: ['int', n]
+    T = lambda s: ['str', s]
+    clash = ['dict', [[tk(T('a'), I(1)), I(1)], [tk(I(1), T('a')), I(2)]]]                       # keys of one type that cannot be ordered
+    fine = ['dict', [[tk(I(2), T('b')), I(1)], [tk(I(1), T('a')), I(2)], [tk(I(1), T('b')), I(3)], [tk(I(0), T('z')), I(4)]]]
+    fsets = ['dict', [[['fset', [I(1), I(2)]], I(1)], [['fset', [I(1)]], I(2)], [['fset', []], I(3)]]]
+    mixed = ['dict', [[I(3), I(1)], [T('a'), I(2)], [['none'], I(3)], [I(1), I(4)], [T('B'), I(5)]]]
+    for v in (['list', [clash, fine]], ['list', [fine, clash, fine]], ['list', [mixed, fine]], ['dict', [[T('x'), clash], [T('a'), fine]]],
+              ['list', [fsets, fine]], fine, ['tuple', [mixed, clash, fine, fine]]):
+        for w in (79, 10):
+            yield {'v': v, 'cfg': {'width': w, 'ribbon_width': w, 'indent': 4, 'sort_dict_keys': True}}
 
 
 def strategy(tier):
